@@ -187,7 +187,7 @@ Lemma compile_try body handlers orelse final c :
       let '(fin, c4) :=
         match final with
         | None => ([], c3)
-        | Some f => let '(rf, c4) := cbranch f rempty None c3 in (rs (radd rf (expr_as_stmt rf)), c4)
+        | Some f => let '(rf, c4) := cbranch f rempty None c3 in (or_pass (rs (radd rf (expr_as_stmt rf))), c4)
         end in
       let body_stmts :=
         or_pass (match orel with
